@@ -41,14 +41,17 @@ theorem C05_link_entries_validated_walk (fuel : Nat) (path : Str) (node : Node) 
    (h.2.2 src dst path node st hl).linksOK hm⟩
 
 /-- **C05_no_deref_illegal.** The callback on a symlink that is not excluded by the ignore rules
-and is not the root (the hypotheses are the branch conditions of `packWalkFn`), whose target fails
-`validSymlink`, with dereferencing off: the illegal-slug error, and nothing is written. -/
+and is not the root (the hypotheses are the branch conditions of `packWalkFn`; since the repair of
+finding F43 the rules are matched against the archive path `sub`, not against `sub0`), whose
+target fails `validSymlink`, with dereferencing off: the illegal-slug error, and nothing is
+written. -/
 theorem C05_no_deref_illegal (fuel : Nat) (path target sub0 sub : Str) (st : PState)
-    (h1 : pathRel src path = some sub0) (h2 : sub0 ≠ dot) (h3 : (ruleExcludes rules sub0).1 = false)
+    (h1 : pathRel src path = some sub0) (h2 : sub0 ≠ dot)
     (h4 : pathRel root (replaceFirst path src dst) = some sub) (h5 : sub ≠ dot)
+    (h3 : (ruleExcludes rules sub).1 = false)
     (hv : validSymlink cwd o.allow root path target = false) (hd : o.dereference = false) :
     visit fs cwd o rules root src dst (fuel + 1) path (.link target) st = (st, .stop .illegal) :=
-  pk_visit_link_illegal fs cwd o rules root src dst fuel path target sub0 sub st h1 h2 h3 h4 h5 hv hd
+  pk_visit_link_illegal fs cwd o rules root src dst fuel path target sub0 sub st h1 h2 h4 h5 h3 hv hd
 
 /-- **C05_stop_propagates.** A `stop x` travels up unchanged: from the callback through
 `walkNode`, from a child through the loop over a directory (earlier children that returned
@@ -154,8 +157,8 @@ example : PackNamesOK c05fs := by unfold PackNamesOK NameNS Plain; decide
 /-- dereferencing off: `a` and the in-tree link are written, then the out-of-tree link stops Pack
 with the illegal-slug error -/
 example :
-    (pack c05fs "/".toList ⟨false, false, []⟩ c05root).2 = .illegal ∧
-    (pack c05fs "/".toList ⟨false, false, []⟩ c05root).1.pmeta.files = ["a".toList, "in".toList] := by
+    (pack c05fs "/".toList ⟨false, false, [], []⟩ c05root).2 = .illegal ∧
+    (pack c05fs "/".toList ⟨false, false, [], []⟩ c05root).1.pmeta.files = ["a".toList, "in".toList] := by
   decide
 
 /-- the branch hypotheses of `C05_no_deref_illegal` are met at `/t/src/out` -/
@@ -166,14 +169,14 @@ example :
 
 /-- allow-listing the target's directory stores the link as a link -/
 example :
-    (pack c05fs "/".toList ⟨false, false, ["/t/ext".toList]⟩ c05root).2 = .ok ∧
-    (pack c05fs "/".toList ⟨false, false, ["/t/ext".toList]⟩ c05root).1.entries.map (·.link) =
+    (pack c05fs "/".toList ⟨false, false, ["/t/ext".toList], []⟩ c05root).2 = .ok ∧
+    (pack c05fs "/".toList ⟨false, false, ["/t/ext".toList], []⟩ c05root).1.entries.map (·.link) =
       [[], "a".toList, "/t/ext/s".toList] := by decide
 
 /-- dereferencing on: the out-of-tree link is replaced by a copy of its referent -/
 example :
-    (pack c05fs "/".toList ⟨true, false, []⟩ c05root).2 = .ok ∧
-    (pack c05fs "/".toList ⟨true, false, []⟩ c05root).1.entries.map (fun e => (e.name, e.typ, e.body)) =
+    (pack c05fs "/".toList ⟨true, false, [], []⟩ c05root).2 = .ok ∧
+    (pack c05fs "/".toList ⟨true, false, [], []⟩ c05root).1.entries.map (fun e => (e.name, e.typ, e.body)) =
       [("a".toList, tReg, "hi".toList), ("in".toList, tSymlink, []), ("out".toList, tReg, "secret".toList)] := by
   decide
 
